@@ -175,7 +175,7 @@ class Ctx:
                     d.get('ctype', '').replace('const ', '') in ('unsigned int', 'bool', 'unsigned long', 'int',
                                                                  'std::pair<unsigned int, unsigned int>', 'char', 'double',
                                                                  'unsigned char', 'long', 'long long', 'unsigned long long') or \
-                    (d['dk'] == 'Var' and re.match(r'^const char ?(\[\d*\]|\*( const)?)$', d.get('ctype', '')) is not None):
+                    (d['dk'] == 'Var' and re.match(r'^const char ?(\[\d*\]|\* ?(const)?)$', d.get('ctype', '')) is not None):
                 defs = var_defs(self.fn, t[1])
                 if len(defs) == 1 and defs[0][1] >= 0:
                     return self.unconst(strip_cast(self.tt.t(defs[0][1])), depth + 1)
